@@ -215,7 +215,22 @@ def make(kind, seed, world, ip, tap, reach):
                                       'proto': sa['proposals'][0]['proto'], 'spi_resp': sa['proposals'][0]['spi'], 'spi_init': spi_q, 'what': what,
                                       'exch': h['exch']})
             count('byz.' + kind)
-            return [(new, 0.0)]
+            extra = 0.0
+            if kind == 'narrow_rekey_response' and r.random() < 0.5:
+                # ... and the peer's DELETE of the CHILD_SA being rekeyed overtakes the (delayed) rekey response: the initiator has already
+                # dropped the old CHILD_SA when the response arrives, which must still be judged as the answer to a rekey
+                rk = next((p for p in req['payloads'] if p['type'] == R.P_NOTIFY and p['ntype'] == R.N_REKEY_SA), None)
+                old = next((c for c in tap.children if rk is not None and rk['spi'] in (c['spi_init'], c['spi_resp'])), None)
+                if old is not None:
+                    mine = old['spi_resp'] if rk['spi'] == old['spi_init'] else old['spi_init']      # the SPI the responder of this rekey receives on
+                    ids = [i for (flag, i) in s.requests if flag == h['I']]
+                    dele = ip.seal(s, {'spi_i': h['spi_i'], 'spi_r': h['spi_r'], 'exch': R.INFORMATIONAL, 'I': h['I'], 'R': False,
+                                       'id': (max(ids) + 1) if ids else 0},
+                                   [{'type': R.P_DELETE, 'proto': rk['proto'], 'spis': [mine]}], _rb(r, 16))
+                    world.net.inject(dele, meta['src'], meta['dst'], 0.005, 'byz.delete_overtakes_rekey_response')
+                    extra = 0.6
+                    count('byz.delete_overtakes_rekey_response')
+            return [(new, extra)]
         rule.label = 'byz.' + kind
 
         def verdict(w):
